@@ -510,6 +510,16 @@ class Interp(Analyzer):
 
     def binop(self, op, a, b, ty, frame, st):
         r = self._binop(op, a, b, ty, frame, st)
+        # definition of a freshly created symbol (state independent): used by the bit-provenance view (lrs/bits.py)
+        try:
+            base_ = op.replace('WithOverflow', '').replace('Unchecked', '')
+            if base_ in ('BitAnd', 'BitOr', 'BitXor', 'Shl', 'Shr', 'Add', 'Sub', 'Mul', 'Rem', 'Div') and r[0] == 'int' and r[1].single() and r[1].k == 0 and r[1].single()[1] == 1:
+                s_ = r[1].single()[0]
+                la_, lb2_ = self.as_int(a, st), self.as_int(b, st)
+                if la_ is not None and lb2_ is not None and s_ not in la_.co and s_ not in lb2_.co and ('#' in s_ or s_.startswith('vn:')):
+                    self.bitdef.setdefault(s_, (base_, la_, lb2_, self.subst_ty(ty, frame)))
+        except Exception:
+            pass
         # provenance of freshly created symbols (used to classify obligations: which inputs does a value depend on)
         try:
             out = set()
@@ -732,6 +742,10 @@ class Interp(Analyzer):
             return ('int', lin)
         self.lossy_casts.setdefault(frame.body.path, []).append((from_ty, to_ty, l, u))
         va = st.values(lin)
+        if va is None:
+            r_ = self.fresh(st, to_ty)
+            self.bitdef[r_.single()[0]] = ('cast', lin, from_ty, to_ty)
+            return ('int', r_)
         if va is not None:
             bits = {'u8': 8, 'u16': 16, 'u32': 32, 'u64': 64, 'usize': 64, 'u128': 128, 'i8': 8, 'i16': 16, 'i32': 32, 'i64': 64, 'isize': 64, 'i128': 128}[to_ty]
             out = set()
@@ -1560,6 +1574,9 @@ class Interp(Analyzer):
                     del edge[(bb, v)]
                     dirty.add(v)
         self.loops.setdefault(body.path, set()).update(cfg.loop_heads)
+        if frame.depth == 0:
+            # the separate states flowing into the return block(s) of an entry (per-path views, e.g. Ok vs Err exits)
+            self.entry_ret_edges = [(u, v, edge[(u, v)]) for (u, v) in sorted(edge) if body.blocks[v].term.k == 'return']
         ret = None
         groups = {}
         for bb in sorted(ret_states):
@@ -1646,6 +1663,7 @@ def new_analyzer(prog, **kw):
     an.lossy_casts = {}
     an._trait_cache = {}
     an._leaf = {}
+    an.bitdef = {}
     an.boundary_traits = set()
     an._const_cache = {}
     an._frame_by_id = {}
